@@ -94,7 +94,7 @@ def _fix_simple(c):
 @st.composite
 def xy_spec(draw, families=None, costs=("chi2",), n_sources=(0, 4), x_errors=True, model_sources=True, constraints=True, fixed=True,
             limits=False, minimizers=("iminuit",), deas=("nonlinear",), model_only_first=0.15, poisson_data=False, min_points=None,
-            relative_model=True, permute_params=False, noise_scale=1.0, y_scales=(None,)):
+            relative_model=True, permute_params=False, noise_scale=1.0, y_scales=(None,), sigma_rel=(0.01, 0.15)):
     fam = draw(st.sampled_from(list(families or LINEAR_FAMILIES + NONLINEAR_FAMILIES)))
     F = models.family(fam)
     npar = len(F.params)
@@ -107,8 +107,8 @@ def xy_spec(draw, families=None, costs=("chi2",), n_sources=(0, 4), x_errors=Tru
     x = 0.2 + (x - x[0]) / max(x[-1] - x[0], 1e-9) * (x_hi - 0.2) if n > 1 else np.array([1.0])
     y0 = F.f(x, truth)
     scale = float(np.max(np.abs(y0))) or 1.0
-    sigma_rel = draw(st.floats(0.01, 0.15))
-    base_sigma = sigma_rel * scale
+    sigma_rel_v = draw(st.floats(*sigma_rel))
+    base_sigma = sigma_rel_v * scale
     noise = draw(st.lists(st.floats(-1.5, 1.5), min_size=n, max_size=n))
     cost = draw(st.sampled_from(list(costs)))
     order = list(F.params)
